@@ -66,6 +66,10 @@ pub struct RtSc {
     /// property quantifies over every graph a history can produce, not only freshly connected ones
     #[serde(default)]
     pub after: Vec<crate::model::Op>,
+    /// edge operations applied to the same graph after its first serialisation; it is then
+    /// serialised a second time (the second and later uses of one container object)
+    #[serde(default)]
+    pub then: Vec<crate::model::Op>,
 }
 
 pub struct RoundTrip;
@@ -119,8 +123,8 @@ fn rt_run<F: Flavour>(sc: &RtSc, stats: &mut Stats) -> Option<Violation> {
 fn rt_inner<F: Flavour>(sc: &RtSc, stats: &mut Stats) -> Option<Violation> {
     hashseam::set_seed(sc.ser_hash);
     let (nodes, g) = build::<F>(&sc.prios, &sc.edges, &sc.insert_order);
+    let w = World::<F> { nodes, graph: None };
     if !sc.after.is_empty() {
-        let w = World::<F> { nodes, graph: None };
         for op in &sc.after {
             if w.exec(op).is_failure() {
                 stats.note(format!("an edge operation failed while preparing the graph (decided under C03): {op:?}"));
@@ -268,6 +272,44 @@ fn rt_inner<F: Flavour>(sc: &RtSc, stats: &mut Stats) -> Option<Violation> {
             }
         }
         Err(e) => return Some(Violation::new("de-failed", format!("serialising and deserialising the copy failed: {e}"))),
+    }
+    // the same container object, changed through its nodes and serialised again
+    if !sc.then.is_empty() {
+        for op in &sc.then {
+            if w.exec(op).is_failure() {
+                stats.note(format!("an edge operation failed while changing the graph (decided under C03): {op:?}"));
+                return None;
+            }
+        }
+        stats.inc("graphs_serialised_again_after_changes");
+        let src2 = canon::<F>(&g);
+        if src2 == src {
+            stats.inc("graphs_serialised_again_unchanged");
+        }
+        match F::g_ser(&g, sc.wire).and_then(|b| F::g_de(&b, sc.wire)) {
+            Ok(g4) => {
+                let dst2 = canon::<F>(&g4);
+                if dst2 != src2 {
+                    let diff: Vec<String> = src2
+                        .iter()
+                        .filter(|(k, v)| dst2.get(k) != Some(v))
+                        .take(3)
+                        .map(|(k, v)| format!("node {k}: graph {:?}, copy {:?}", v, dst2.get(k)))
+                        .collect();
+                    return Some(Violation::new(
+                        "round-trip-mismatch",
+                        format!(
+                            "{} {:?}: second serialisation of the same container after {:?}: {}",
+                            sc.flavour,
+                            sc.wire,
+                            sc.then,
+                            diff.join("; ")
+                        ),
+                    ));
+                }
+            }
+            Err(e) => return Some(Violation::new("de-failed", format!("second serialisation of the same container failed: {e}"))),
+        }
     }
     // other payload types: String keys, () node and edge values (parallel edges indistinguishable)
     let pairs: Vec<(usize, usize)> = sc.edges.iter().map(|(u, v, _)| (*u, *v)).collect();
@@ -426,6 +468,36 @@ impl Engine for RoundTrip {
                 });
             }
         }
+        // changes between two serialisations of the same container: mostly pairs that keep the
+        // number of nodes and edges (move, reverse or re-value an edge), sometimes anything
+        let mut then = Vec::new();
+        if !edges.is_empty() && after.is_empty() && rng.chance(1, 4) {
+            let mut next = 20_000u64;
+            let h = crate::model::Prov::Own;
+            for _ in 0..rng.range(1, 3) {
+                let (u, v, _) = edges[rng.below(edges.len())];
+                next += 1;
+                match rng.below(8) {
+                    0..=2 => {
+                        // move
+                        then.push(crate::model::Op::Disconnect { u, k: v, h });
+                        then.push(crate::model::Op::Connect { u: rng.below(prios.len()), v: rng.below(prios.len()), e: next, h });
+                    }
+                    3 | 4 => {
+                        // reverse
+                        then.push(crate::model::Op::Disconnect { u, k: v, h });
+                        then.push(crate::model::Op::Connect { u: v, v: u, e: next, h });
+                    }
+                    5 => {
+                        // new value
+                        then.push(crate::model::Op::Disconnect { u, k: v, h });
+                        then.push(crate::model::Op::Connect { u, v, e: next, h });
+                    }
+                    6 => then.push(crate::model::Op::Connect { u: v, v: rng.below(prios.len()), e: next, h }),
+                    _ => then.push(crate::model::Op::Isolate { u, h }),
+                }
+            }
+        }
         RtSc {
             flavour,
             prios,
@@ -438,6 +510,7 @@ impl Engine for RoundTrip {
             wplan,
             rplan,
             after,
+            then,
         }
     }
 
@@ -480,13 +553,19 @@ impl Engine for RoundTrip {
             c.after = a;
             out.push(c);
         }
+        for a in gen::shrink_vec(&sc.then, 20) {
+            let mut c = sc.clone();
+            c.then = a;
+            out.push(c);
+        }
         for k in (0..sc.prios.len()).rev() {
             if sc.prios.len() > 1 {
-                if let (Some(edges), Some(after)) = (gen::remap_edges(&sc.edges, k), gen::remap_ops(&sc.after, k)) {
+                if let (Some(edges), Some(after), Some(then)) = (gen::remap_edges(&sc.edges, k), gen::remap_ops(&sc.after, k), gen::remap_ops(&sc.then, k)) {
                     let mut c = sc.clone();
                     c.prios.remove(k);
                     c.edges = edges;
                     c.after = after;
+                    c.then = then;
                     c.insert_order.retain(|x| *x != k);
                     for x in c.insert_order.iter_mut() {
                         if *x > k {
@@ -507,7 +586,7 @@ impl Engine for RoundTrip {
 
     fn size(&self, sc: &RtSc) -> usize {
         let plan = |p: &StreamPlan| p.chunks.len() + p.interrupt_every.is_some() as usize + p.is_hard() as usize * 2;
-        sc.edges.len() * 4 + sc.prios.len() * 2 + sc.via_stream as usize * 3 + plan(&sc.wplan) + plan(&sc.rplan) + sc.after.len() * 4
+        sc.edges.len() * 4 + sc.prios.len() * 2 + sc.via_stream as usize * 3 + plan(&sc.wplan) + plan(&sc.rplan) + sc.after.len() * 4 + sc.then.len() * 4
     }
 }
 
